@@ -229,6 +229,7 @@ def check(run):
     # diagnostics planted in the later parts of a statement only surface if the resolver merges the errors of all parts (shared with C06.R7)
     from props import c06 as _c06
     _c06.r7_errors_merged(run, F)
+    _c06.r8_combiners_keep_both(run, F)
     r1_balance(run, F)
     r2_reverse(run, F)
     r3_lookup(run, F)
